@@ -28,6 +28,7 @@ import (
 	"sync/atomic"
 	"time"
 
+	"verifsim/c16"
 	"verifsim/core"
 	"verifsim/raceorc"
 	"verifsim/tape"
@@ -163,6 +164,7 @@ func runOne(e *Engine, t *tape.Tape, tier string) *core.Run {
 		}
 		raceorc.Drain()
 		racesBefore = raceorc.Errors()
+		c16.SetProbeYield(true)
 	}
 	go func() {
 		defer close(done)
